@@ -115,7 +115,8 @@ def _work(ctx: Ctx, item):
     db = canboat.db()
     keys = traffic.SINGLE_KEYS + traffic.FAST_KEYS
     pgns = sorted({db.by_key[k].pgn for k in keys})
-    ids = sorted({db.by_key[k].id for k in keys})
+    ids = sorted({db.by_key[k].id for k in keys}) + traffic.twin_ids()
+    pgns = sorted(set(pgns) | set(traffic.TWIN_PGNS))
 
     def one(cfg, items, build_map):
         mode, entries = cfg
@@ -135,7 +136,7 @@ def _work(ctx: Ctx, item):
             ctx.sample({"mode": mode, "entries": entries, "frames": len(items), "dropped": dropped, "kept": kept})
         return res
 
-    ctx.hyp(one, configs(pgns, ids), traffic.history(), st.booleans(), max_examples=n, name="filters")
+    ctx.hyp(one, configs(pgns, ids), traffic.history(twins=True), st.booleans(), max_examples=n, name="filters")
 
 
 def run(ctx: Ctx):
